@@ -210,3 +210,106 @@ def date_like(toks):
             if 1 <= int(d) <= 31 and 1 <= int(m) <= 12 and not w[0].get("sfx") and not w[2].get("sfx"):
                 return True
     return False
+
+
+# ---------------------------------------------------------------------------------------------
+# literals of every kind (canonical spelling), use expressions, assignments, failing lines
+# ---------------------------------------------------------------------------------------------
+import datetime
+
+
+def q_fraction(q):
+    return Fraction(q[0], q[1]) * (10 ** q[2])
+
+
+def civil_from_days(day):
+    d = datetime.date(1970, 1, 1).toordinal() + day
+    dt = datetime.date.fromordinal(d)
+    return dt.year, dt.month, dt.day
+
+
+def duration_text(d, s, lang="en"):
+    total = d * 86400 + s
+    sign = ""
+    if total < 0:
+        raise ToolError("negative duration literal")
+    parts = []
+    for name, size in (("days", 86400), ("hours", 3600), ("minutes", 60), ("seconds", 1)):
+        n = total // size
+        total -= n * size
+        if n:
+            parts.append("%d %s" % (n, name if n != 1 else name[:-1]))
+    if not parts:
+        parts = ["0 seconds"]
+    return sign + " ".join(parts)
+
+
+def lit_text(v, cfg):
+    dec, tho = cfg["dec"], cfg["tho"]
+    k = v["k"]
+    if k == "num":
+        return number_text(q_fraction(v["q"]), dec, tho)
+    if k == "pct":
+        return number_text(q_fraction(v["q"]), dec, tho) + "%"
+    if k == "money":
+        return number_text(q_fraction(v["q"]), dec, tho) + " " + v["cur"]
+    if k == "unit":
+        return number_text(q_fraction(v["q"]), dec, tho) + " " + v["u"]
+    if k == "dur":
+        return duration_text(v["d"], v["s"])
+    if k == "date":
+        y, m, d = civil_from_days(v["day"])
+        return "%d/%d/%d" % (d, m, y)
+    if k == "time":
+        wall = (v["sod"] + v.get("off", 0) * 60) % 86400
+        t = "%d:%02d:%02d" % (wall // 3600, wall % 3600 // 60, wall % 60)
+        return t
+    raise ToolError("no literal spelling for kind " + k)
+
+
+def name_text(ws, case="lower"):
+    t = " ".join(ws)
+    if case == "upper":
+        return t.upper()
+    if case == "title":
+        return t.title()
+    return t
+
+
+FAIL_SPELLINGS = ["(", "3 + (", ")"]
+
+
+def render_line(line, cfg, case="lower", salt=""):
+    f = line["form"]
+    if f == "arith":
+        return render_arith(line["toks"], cfg["dec"], cfg["tho"], "single", salt)
+    if f == "blank":
+        return ["", " ", "   "][int(short_hash(salt), 16) % 3]
+    if f == "comment":
+        return "# " + line.get("text", "zorp")
+    if f == "lit":
+        return lit_text(line["v"], cfg)
+    if f == "use":
+        out = []
+        toks = line["toks"]
+        for i, t in enumerate(toks):
+            if t["k"] == "words":
+                out.append(name_text(t["ws"], case))
+            else:
+                out.append(arith_token_texts([t], cfg["dec"], cfg["tho"])[0])
+        # prefix sign glued to its operand
+        s = ""
+        for i, x in enumerate(out):
+            s += x
+            if i < len(out) - 1:
+                if toks[i]["k"] == "op" and (i == 0 or toks[i - 1]["k"] in ("op", "lp")):
+                    continue
+                if toks[i]["k"] == "lp" or toks[i + 1]["k"] == "rp":
+                    continue
+                s += " "
+        return s
+    if f == "fail":
+        return FAIL_SPELLINGS[int(short_hash(["f", salt]), 16) % len(FAIL_SPELLINGS)]
+    if f == "assign":
+        return name_text(line["name"], case) + " = " + render_line(line["rhs"], cfg, case, salt)
+    raise ToolError("no rendering for form " + f)
